@@ -1,21 +1,94 @@
-"""C16 — TrueType outlines: bounded nesting depth of composite traversal, explicit panic discipline of the outline module."""
+"""C16 — TrueType outlines: bounded nesting depth of composite traversal, explicit panic discipline of the outline module,
+the glyf flag tables, and indexing/arithmetic discipline of the outline code."""
+import re
+
+import indexing
+import overflow
 import recursion
 import rules_C01
+import sym
 
 LEVEL = "other"
 EXPLANATION = (
     "Decides the clause 'to a bounded nesting depth': every recursive cycle through the glyf outline visitor "
     "(visit_outline <-> visit_composite_glyph_outline) threads a depth counter monotonically, has a strict step on the cycle and a "
     "bound test (depth > COMPOSITE_GLYPH_RECURSION_LIMIT => Err) dominating a call site on the cycle (rule C01-a over the "
-    "per-instance call graph, all instantiations of the OutlineSink parameter). Also applies the explicit-panic rule (C01-b) to "
-    "src/tables/glyf.rs, src/tables/glyf/outline.rs and src/outline.rs: any new unwrap/unreachable!/assert!/range slice on glyph "
-    "data in the outline code is a violation."
+    "per-instance call graph, all instantiations of the OutlineSink parameter). Applies the explicit-panic rule (C01-b), the element "
+    "indexing rule and the overflow-arithmetic rule to src/tables/glyf.rs, src/tables/glyf/outline.rs and src/outline.rs. Reads the "
+    "two flag tables of the glyf format from the compiled constants and compares them with the OpenType specification (T16-FLAGS: "
+    "simple glyph flags 0x01..0x20, composite glyph flags 0x0001..0x1000) and checks that every flag predicate tests its own constant "
+    "(T16-PRED: `self & X == X` with X the constant the method is named after): a wrong bit or a swapped predicate mis-decodes flags, "
+    "coordinates, component arguments or transforms of some well-formed glyph."
 )
-NOT_DECIDED = "contour walking, implied on-curve points, flag/coordinate decoding arithmetic and composite transforms (value properties)."
+NOT_DECIDED = ("contour walking (origin selection, implied on-curve points, closing edge), coordinate decoding arithmetic, component offset "
+               "scaling and transform composition are value properties and are not decided; all seeded changes against C16 (DESIGN 11.5) are of that kind.")
 
 FILES = ("src/tables/glyf.rs", "src/tables/glyf/outline.rs", "src/outline.rs")
+
+SIMPLE = {"ON_CURVE_POINT": 0x01, "X_SHORT_VECTOR": 0x02, "Y_SHORT_VECTOR": 0x04, "REPEAT_FLAG": 0x08,
+          "X_IS_SAME_OR_POSITIVE_X_SHORT_VECTOR": 0x10, "Y_IS_SAME_OR_POSITIVE_Y_SHORT_VECTOR": 0x20}
+COMPOSITE = {"ARG_1_AND_2_ARE_WORDS": 0x0001, "ARGS_ARE_XY_VALUES": 0x0002, "ROUND_XY_TO_GRID": 0x0004, "WE_HAVE_A_SCALE": 0x0008,
+             "MORE_COMPONENTS": 0x0020, "WE_HAVE_AN_X_AND_Y_SCALE": 0x0040, "WE_HAVE_A_TWO_BY_TWO": 0x0080, "WE_HAVE_INSTRUCTIONS": 0x0100,
+             "USE_MY_METRICS": 0x0200, "OVERLAP_COMPOUND": 0x0400, "SCALED_COMPONENT_OFFSET": 0x0800, "UNSCALED_COMPONENT_OFFSET": 0x1000}
+PREDICATES = {
+    "tables::glyf::SimpleGlyphFlag": {"is_on_curve": "ON_CURVE_POINT", "x_is_short": "X_SHORT_VECTOR", "y_is_short": "Y_SHORT_VECTOR",
+                                      "is_repeated": "REPEAT_FLAG", "x_is_same_or_positive": "X_IS_SAME_OR_POSITIVE_X_SHORT_VECTOR",
+                                      "y_is_same_or_positive": "Y_IS_SAME_OR_POSITIVE_Y_SHORT_VECTOR"},
+    "tables::glyf::CompositeGlyphFlag": {"arg_1_and_2_are_words": "ARG_1_AND_2_ARE_WORDS", "args_are_xy_values": "ARGS_ARE_XY_VALUES",
+                                         "we_have_a_scale": "WE_HAVE_A_SCALE", "more_components": "MORE_COMPONENTS",
+                                         "we_have_an_x_and_y_scale": "WE_HAVE_AN_X_AND_Y_SCALE", "we_have_a_two_by_two": "WE_HAVE_A_TWO_BY_TWO",
+                                         "we_have_instructions": "WE_HAVE_INSTRUCTIONS"},
+}
+
+
+def t16_flags(run, fx):
+    rule = "T16-FLAGS"
+    run.rule(rule, "the glyf flag constants equal the OpenType specification: simple glyph flags ON_CURVE_POINT 0x01, X_SHORT_VECTOR 0x02, "
+                   "Y_SHORT_VECTOR 0x04, REPEAT_FLAG 0x08, X_IS_SAME_OR_POSITIVE 0x10, Y_IS_SAME_OR_POSITIVE 0x20; composite glyph flags "
+                   "0x0001, 0x0002, 0x0004, 0x0008, 0x0020, 0x0040, 0x0080, 0x0100, 0x0200, 0x0400, 0x0800, 0x1000")
+    for ty, table in (("tables::glyf::SimpleGlyphFlag", SIMPLE), ("tables::glyf::CompositeGlyphFlag", COMPOSITE)):
+        for name, want in sorted(table.items()):
+            c = fx.const("%s::%s" % (ty, name))
+            if c is None:
+                run.anchor_missing(rule, "%s::%s" % (ty, name))
+                continue
+            if c.get("val") == want:
+                run.ok(rule, "%s::%s = %#x" % (ty.split("::")[-1], name, want))
+            else:
+                run.fail(rule, "flag:%s::%s" % (ty.split("::")[-1], name), "%s::%s is %s, the specification says %#x" % (ty, name, c.get("val"), want),
+                         "%s:%s" % (c.get("file"), c.get("line")))
+
+
+def t16_pred(run, fx):
+    rule = "T16-PRED"
+    run.rule(rule, "every predicate of SimpleGlyphFlag / CompositeGlyphFlag is `self & X == X` with X the constant it is named after")
+    for ty, preds in PREDICATES.items():
+        for fn, cname in sorted(preds.items()):
+            b = fx.body("%s::%s" % (ty, fn))
+            if b is None:
+                run.anchor_missing(rule, "%s::%s" % (ty, fn))
+                continue
+            ret = sym.strip(sym.Prov(b).local(0))
+            consts = [x[1] for x in sym.walk(ret) if x[0] == "uneval"]
+            for x in sym.walk(ret):
+                if x[0] == "promoted":
+                    for st in x[1]:
+                        consts += re.findall(r"const ([\w:<>' ,]+::[A-Z_0-9]+)\b", st)
+            is_eq = ret[0] == "call" and (ret[1] or "").endswith("PartialEq>::eq")
+            has_and = any(x[0] == "call" and (x[1] or "").endswith("BitAnd>::bitand") for x in sym.walk(ret))
+            want = "%s::%s" % (ty, cname)
+            if is_eq and has_and and consts and all(c == want for c in consts) and len(consts) >= 2:
+                run.ok(rule, "%s::%s tests %s" % (ty.split("::")[-1], fn, cname))
+            else:
+                run.fail(rule, "pred:%s::%s" % (ty.split("::")[-1], fn), "%s::%s is not `self & %s == %s` (it mentions %s)" % (
+                    ty, fn, cname, cname, sorted({c.split("::")[-1] for c in consts}) or sym.show(ret)[:60]), "%s:%s" % (b.file, b.line))
 
 
 def check(run, fx, tier, floors=True):
     recursion.run_rule(run, fx, "C01-a", lambda f: any("tables::glyf::outline" in p for p in f.local_paths), floors_n=1 if floors else None)
     rules_C01.rule_panics(run, fx, "C01-b", lambda b: b.file in FILES, floors, floor_n=5)
+    if floors or fx.const("tables::glyf::SimpleGlyphFlag::ON_CURVE_POINT") is not None:
+        t16_flags(run, fx)
+        t16_pred(run, fx)
+    indexing.rule_index(run, fx, "C16-i", floors, select=lambda b: b.file in FILES, floor_n=10)
+    overflow.rule_overflow(run, fx, "C16-o", floors, select=lambda b: b.file in FILES, floor_n=10)
